@@ -320,16 +320,17 @@ def run_hist(inp):
 def gen_hist(rng, n):
     exhaustive = n >= 20000
     if exhaustive:
-        # thorough: every history of depth <= 3 over the 9 operations (each followed by one query), and every depth-4 history ending
-        # in an operation that rewrites data (setitem/stack/combine/apply), for 3 kinds x 3 shapes
+        # thorough: EVERY history of depth <= 4 over the seven operations that rewrite or re-index data (2800 per class and shape), each operation
+        # followed by one query; the two value-preserving operations (copy, astype) are inserted at random positions; 3 classes x 3 shapes
+        core = [o for o in OPS if o not in ("copy", "astype")]
         for kind in AUXK:
             for shape in HSHAPES:
                 for depth in range(1, 5):
-                    for ops in itertools.product(OPS, repeat=depth):
-                        if depth == 4 and ops[-1] not in ("setitem", "combine", "stack", "apply"):
-                            continue
+                    for ops in itertools.product(core, repeat=depth):
                         seq = []
                         for o in ops:
+                            if rng.random() < 0.15:
+                                seq.append(rng.choice(["copy", "astype"]))
                             seq += [o, "q:" + rng.choice(QUERIES[kind])]
                         yield {"op": "history", "kind": kind, "shape": shape, "n": 2, "seed": rng.randrange(10 ** 9), "ops": seq}
         return
@@ -662,17 +663,18 @@ def judge_corr(inp, obs, lr):
 def clauses():
     return [
         Clause("history_corr", "corr", gen_corr, run_corr, judge_corr, lean=lean_corr, site="projective.ProjectiveObject operations + in-place queries",
-               budget={"quick": 200, "thorough": 4000},
+               budget={"quick": 300, "thorough": 4000},
                what="exact-rational histories (<= 6 operations interleaved with the in-place queries) on polygons (hyperbolic and projective class), tangent vectors, segments and points of shapes (), (2,), (2,3): "
                     "after every step composite shape, proj_data and aux_data of the implementation vs the Lean state machine Obj.step / Obj.afterQuery executed over Q "
                     "(data chosen so that every square root the library takes is rational)"),
         Clause("history_oracle", "oracle", gen_hist, run_hist, judge_hist, site="projective.ProjectiveObject (set/copy/apply/reshape/flatten/__getitem__/__setitem__/stack/combine/astype) + queries",
-               budget={"quick": 270, "thorough": 30000},
+               budget={"quick": 540, "thorough": 30000},
                what="histories over {copy, apply, reshape, flatten, index, set item, stack, combine, astype} on polygons, segments, tangent vectors of shapes (), (2,), (2,3) "
-                    "interleaved with read-only queries (random depth <= 8 in quick; exhaustive depth <= 3 plus all depth-4 histories ending in a data-rewriting op in thorough): "
+                    "interleaved with read-only queries (random depth <= 8 in quick; in thorough EVERY history of depth <= 4 over {apply, reshape, flatten, index, set item, stack, combine} "
+                    "with copy/astype inserted at random): "
                     "after each step every object ever produced has aux_data ~ fresh recomputation; around each query every stored row and every caller-supplied array is unchanged as a projective point (tangent directions: up to a positive scalar)"),
         Clause("point_queries", "oracle", gen_pq, run_pq, O.judge_bad, site="hyperbolic.Point.coords/distance/origin_to, hyperbolic.hyperboloid_coords/spacelike_to/timelike_to",
-               budget={"quick": 150, "thorough": 3000},
+               budget={"quick": 300, "thorough": 3000},
                what="coordinates in every model, distance, origin_to, unit_tangent_towards, fixed points on composite points (either sign of the representative): Klein coordinates of "
                     "the objects unchanged, stored rows unchanged projectively, caller-supplied arrays (constructor inputs, arguments of module-level functions) keep their points"),
     ]
